@@ -247,6 +247,25 @@ DRV_CMD(fw_open, "fw.open") {
   return std::string(ok ? "ok " : "refused ") + after;
 }
 
+// fw.seq <flags 0..15> <existing content hex | absent> <ops> : FileWriter(path, flags), then a history of writes and seeks
+// (Position() after every operation), close; content on disk afterwards
+DRV_CMD(fw_seq, "fw.seq") {
+  unsigned flags = static_cast<unsigned>(toU64(need(a,0))); bool ex = need(a,1) != "absent";
+  std::string path = freshDir() + "/out.bin";
+  if (ex) writeFile(path, hexDecode(a[1]));
+  std::string out;
+  try {
+    FileWriter w(path, static_cast<FileWriter::OpenMode>(flags));
+    out = "ok:" + std::to_string(w.Position());
+    if (need(a,2) != "-") for (const auto& tok : splitOn(a[2], ',')) {
+      bool ok = applyW(w, parseW(tok));
+      out += std::string(",") + (ok ? "ok" : "err") + ":" + std::to_string(w.Position());
+    }
+  } catch (const BadOp&) { throw; }
+  catch (const std::exception&) { out = "refused"; }
+  return out + " " + (exists(path) ? showBytes(readFile(path)) : std::string("absent"));
+}
+
 // multi <mem|file> <data> <steps> : several live streams over one source, operations interleaved.
 // step = "<obj>.<op>"; op = reader op token, or S<start>:<len> (two-argument Slice -> new object),
 // H<len> (Slice at the current position -> new object), C (copy-construct -> new object).
